@@ -46,7 +46,17 @@ def run_pipeline(lines, timeout=40, shards=None):
         inv[i] = pos
     rc, out, err = core.run_sharded(exe, ["--timeout", str(timeout), "--mem-mb", "6144"], [lines[i] for i in order],
                                     shards=shards, timeout=6 * 3600)
-    return rc, [out[inv[i]] for i in range(len(lines))], err
+    res, ms = [], []
+    for i in range(len(lines)):
+        t, _, r = out[inv[i]].partition("\t")
+        if t.isdigit():
+            res.append(r)
+            ms.append(int(t))
+        else:
+            res.append(out[inv[i]])
+            ms.append(0)
+    run_pipeline.last_ms = ms
+    return rc, res, err
 
 
 def norm_msg(s, n=70):
@@ -343,6 +353,8 @@ def run(ck):
         return
     cor = corpus_cases()
     scale = 1 if ck.tier == "quick" else 60
+    if os.environ.get("C10_SCALE"):      # development aid only
+        scale = float(os.environ["C10_SCALE"])
     cases = cor + generate(ck, scale)
     ck.coverage["corpus_cases"] = len(cor)
     ck.log("pipeline: %d inputs" % len(cases))
@@ -351,6 +363,17 @@ def run(ck):
     if rc:
         ck.obligation("pipeline-run", "internal", False, "rc=%s %s" % (rc, err[-1500:]))
     process(ck, cases, results)
+    ms = run_pipeline.last_ms
+    bycls = {}
+    for (fmt, data, cls, origin), t in zip(cases, ms):
+        a = bycls.setdefault(cls, [0, 0, 0])
+        a[0] += 1
+        a[1] += t
+        a[2] = max(a[2], t)
+    ck.coverage["time_per_class_ms (count, total, max)"] = bycls
+    ck.log("time per class (n, total ms, max ms): %s" % bycls)
+    slow = sorted(zip(ms, range(len(ms))), reverse=True)[:12]
+    ck.log("slowest: %s" % [(t, cases[i][2], cases[i][3][:60], show_input(cases[i][1], 60)) for t, i in slow])
     for (fmt, data, cls, origin), res in list(zip(cases, results))[:6]:
         ck.sample({"class": cls, "format": fmt, "input": show_input(data, 160), "result": res[:300]})
     ck.coverage["rule"] = "see checks/c10_gen.py"
